@@ -233,7 +233,7 @@ def run(prog, rep):
     # "including lines that come from empty paragraphs": every paragraph must yield at least one line, i.e. the
     # wrap algorithms return a non-empty arrangement even for an empty word list
     lemmas.load_all()
-    need = ["C06.R2", "DISPATCH"]
+    need = ["C06.R2", "DISPATCH", "C04.WRAPPATH"]
     from .common import has_feature as _hf
     if _hf(prog, "smawk"):
         need.append("C06.R3")
